@@ -193,6 +193,64 @@ def convert(ctx):
     return {"kind": "ok", "keys": sorted(got)}
 
 
+@harness("c11.condense_sym")
+def condense_sym(ctx):
+    """contents that collide or not depending on symbolic score values: ballots A>B{A:s0}, A>B{A:s1}, A>B, {A:s2}
+    in a given order; two ballots have the same content iff their (non-zero) scores are equal"""
+    from votekit.ballot import Ballot
+    from votekit.pref_profile import PreferenceProfile
+    P = ctx.params
+    order = P["order"]
+    s = [ctx.real(f"s{i}", lo=0, snap=True) for i in range(3)]
+    w = [ctx.real(f"w{i}", lo=0, lo_strict=True) for i in range(4)]
+    rk = C.to_ranking(C.R("A>B"))
+    mk = [lambda: Ballot(ranking=rk, scores={"A": s[0]}, weight=w[0]), lambda: Ballot(ranking=rk, scores={"A": s[1]}, weight=w[1]),
+          lambda: Ballot(ranking=rk, weight=w[2]), lambda: Ballot(scores={"A": s[2], "B": 0}, weight=w[3])]
+    desc = [("r", s[0]), ("r", s[1]), ("r", None), ("", s[2])]
+    ballots = [mk[i]() for i in order]
+    try:
+        c1 = PreferenceProfile(ballots=tuple(ballots)).condense_ballots()
+    except Exception as exc:
+        ctx.fail(f"c11:condense-raises:{type(exc).__name__}", str(exc)[:200])
+        return {"kind": "exc"}
+    # group the inputs by content, deciding score equalities on this path
+    groups = []  # [(has_ranking, score or None, weight)]
+    for i in order:
+        hr, sc = desc[i]
+        if sc is not None and ctx.truth(eq(sc, 0)):
+            sc = None
+        for g in groups:
+            if g[0] == hr and ((g[1] is None and sc is None) or (g[1] is not None and sc is not None and ctx.truth(eq(g[1], sc)))):
+                g[2] = add(g[2], w[i])
+                break
+        else:
+            groups.append([hr, sc, num(w[i])])
+    out = list(c1.ballots)
+    if len(out) != len(groups):
+        ctx.fail("c11:condense-group-count", f"{len(out)} ballots for {len(groups)} distinct contents")
+        return {"kind": "bad"}
+    used = set()
+    for b in out:
+        hr = "r" if b.ranking else ""
+        sc = (b.scores or {}).get("A")
+        hit = None
+        for gi, g in enumerate(groups):
+            if gi in used or g[0] != hr:
+                continue
+            if (g[1] is None and sc is None) or (g[1] is not None and sc is not None and ctx.truth(eq(g[1], sc))):
+                hit = gi
+                break
+        if hit is None:
+            ctx.fail("c11:condense-invents-content", f"ranking={bool(b.ranking)} scores={b.scores}")
+            return {"kind": "bad"}
+        used.add(hit)
+        cond = eq(b.weight, groups[hit][2])
+        if ctx.canary == "first-weight-only":
+            cond = eq(b.weight, w[order[0]])
+        ctx.require(cond, "c11:condense-weights", "a content does not carry its summed weight (symbolic scores)")
+    return {"kind": "ok", "n": len(out)}
+
+
 def direct_clauses():
     """clauses without symbolic input: evaluated directly (not a solver claim)"""
     from sx import env
@@ -282,6 +340,10 @@ def tasks(tier, seed):
     for p_, q_ in pairs:
         out.append({"harness": "c11.compare", "params": {"p": [list(x) for x in p_], "q": [list(x) for x in q_]},
                     "name": f"compare {p_} vs {q_}"})
+    for order in (itertools.permutations(range(4)) if not q else [(0, 1, 2, 3), (2, 0, 3, 1), (3, 2, 1, 0), (1, 2, 0, 3)]):
+        out.append({"harness": "c11.condense_sym", "params": {"order": list(order)}, "name": f"condense symbolic scores order={order}", "xval_stride": 2})
+    out.append({"harness": "c11.condense_sym", "params": {"order": [0, 1, 2, 3]}, "canary": "first-weight-only", "stop_on_violation": True,
+                "name": "canary:first-weight-only", "xval_stride": 0})
     out.append({"harness": "c11.convert", "params": {}, "name": "convert"})
     out.append({"kind": "call", "module": "props.c11", "func": "run_direct", "harness": "c11.direct", "name": "direct clauses (immutability, duplicates, float conversion samples, eq/hash)"})
     out.append({"harness": "c11.condense", "params": {"specs": [list(CONTENTS[1]), list(CONTENTS[0])], "ids": False}, "canary": "scores-ignored",
